@@ -849,8 +849,10 @@ func nttConjugateInvariantLazyUnrolled16(p1, p2 []uint64, N int, Q, MRedConstant
 	// Continue the rest of the second to the n-1 butterflies on p2 with approximate reduction
 	for m := 2; m < 2*N; m <<= 1 {
 
-		/* #nosec G115 -- m cannot be negative */
-		reduce = (bits.Len64(uint64(m))&1 == 1)
+		// Reduce on every other stage, ending with a reducing one (the last stage is m = N): the output is then
+		// in [0, 6q-2] for odd log2(N) as well (it reached 8q, which callers adding 2q cannot hold for 61-bit q).
+		/* #nosec G115 -- m and N cannot be negative */
+		reduce = (bits.Len64(uint64(m))&1 == bits.Len64(uint64(N))&1)
 
 		t >>= 1
 		h = m >> 1
